@@ -50,21 +50,6 @@ func NewYielder(mode int, seed uint64) *Yielder {
 	return y
 }
 
-func goid() int64 {
-	var buf [40]byte
-	n := runtime.Stack(buf[:], false)
-	// "goroutine 123 ["
-	var id int64
-	for i := 10; i < n; i++ {
-		c := buf[i]
-		if c < '0' || c > '9' {
-			break
-		}
-		id = id*10 + int64(c-'0')
-	}
-	return id
-}
-
 func mix(x uint64) uint64 {
 	x += 0x9e3779b97f4a7c15
 	x = (x ^ (x >> 30)) * 0xbf58476d1ce4e5b9
@@ -94,7 +79,7 @@ func (y *Yielder) perturb(g int64, point string) {
 }
 
 func (y *Yielder) cb(point string) {
-	g := goid()
+	g := Goid()
 	if y.Mode == YieldTraced {
 		y.mu.Lock()
 		y.Hits[point]++
